@@ -417,6 +417,13 @@ V("mp-finished-on-self", "break", ["C18", "C11"], MP, None, None, "completion fl
          {"old": "finished)", "new": "self.finished)", "all": True},
          {"old": "                finished[proc_idx] = True", "new": "                self.finished[proc_idx] = True", "all": True},
          {"old": "        self.statistics = [None for _ in solvers]\n", "new": "        self.statistics = [None for _ in solvers]\n        self.finished = [False for _ in solvers]\n"}])
+V("mp-worker-marker-in-finally", "break", ["C19", "C11"], BS, None, None, "the worker announces completion from a finally clause, also when its search raised", "solve_and_queue",
+  within="    def solve_and_queue(self",
+  edits=[{"old": "        while True:\n            solution = solve_one(", "new": "        try:\n          while True:\n            solution = solve_one("},
+         {"old": "                break\n        solution_queue.put((processor_idx, None, self.statistics))", "new": "                break\n        finally:\n            solution_queue.put((processor_idx, None, self.statistics))"}])
+V("mp-single-solver-shortcut", "break", ["C11", "C03"], MP,
+  '        return self.optimize(variable_idx, "minimize_and_queue", operator.lt)', '        if len(self.solvers) == 1:\n            return self.solvers[0].minimize(variable_idx)\n        return self.optimize(variable_idx, "minimize_and_queue", operator.lt)',
+  "a single sub-solver is run in the calling process (keeps its state between calls)", "minimize")
 V("mp-neutral-rename", "neutral", ["C11", "C18", "C17"], MP, None, None, "list renamed",
   edits=[{"old": "processes", "new": "procs", "all": True}])
 
@@ -457,6 +464,13 @@ V("split-remainder-shifted", "break", ["C12"], PB, "(0 if split_idx < shr_dom_sz
 V("split-neutral-remainder-first", "neutral", ["C12"], PB,
   "            max_idx = min_idx + shr_dom_sz // split_nb - (0 if split_idx < shr_dom_sz % split_nb else 1)\n",
   "            extra = 1 if split_idx < shr_dom_sz % split_nb else 0\n            max_idx = min_idx + shr_dom_sz // split_nb + extra - 1\n", "same sizes written differently")
+V("domains-cached-on-problem", "break", ["C12", "C15", "C03"], BS, None, None, "choice points (re)initialised from an array cached on the problem (stale after split / edits)", "reset",
+  within="def reset(", edits=[{"old": "        np.array(problem.shr_domains_lst),\n", "new": "        problem.cached_domains if hasattr(problem, 'cached_domains') else np.array(problem.shr_domains_lst),\n"}])
+V("split-remainder-other-divisor", "break", ["C12"], PB,
+  edits=[{"old": "        split_nb = max(1, min(split_nb, shr_dom_sz))  # no more parts than values, otherwise some parts would be empty\n", "new": "        part_nb = max(1, min(split_nb, shr_dom_sz))\n"},
+         {"old": "for split_idx in range(split_nb):", "new": "for split_idx in range(part_nb):"},
+         {"old": "shr_dom_sz // split_nb - (0 if split_idx < shr_dom_sz % split_nb else 1)", "new": "shr_dom_sz // part_nb - (0 if split_idx < shr_dom_sz % split_nb else 1)"}],
+  old=None, new=None, what="quotient by the clamped number of parts, remainder by the unclamped one", expect_fn="split")
 V("split-neutral-temp", "neutral", ["C12"], PB, "            min_idx = max_idx + 1\n", "            nxt = max_idx + 1\n            min_idx = nxt\n", "temp")
 
 # ---------------------------------------------------------------------------------------------------- shaving
